@@ -1772,7 +1772,8 @@ export class AnyOfDiscriminatedRuntype extends BaseRuntype {
           propertyName: this.discriminator,
           mapping: Object.fromEntries(variantRefs.map(({ key, ref }) => [key, ref])),
         },
-        oneOf: variantRefs.map(({ ref }) => ({ $ref: ref })),
+        // a variant that several discriminator values select is one alternative, not several
+        oneOf: [...new Set(variantRefs.map(({ ref }) => ref))].map((ref) => ({ $ref: ref })),
       });
     }
 
@@ -1786,10 +1787,16 @@ export class AnyOfDiscriminatedRuntype extends BaseRuntype {
   }
   private getSchemaVariantRefs(ctx: SchemaContext): Array<{ key: string; ref: string }> {
     const unionHash = this.hash({ seen: {} });
-    return Object.entries(this.schemaMapping).map(([key, schema]) => ({
-      key,
-      ref: this.ensureSchemaVariantRef(schema, key, unionHash, ctx),
-    }));
+    const refOfVariant = new Map<Runtype, string>();
+    const syntheticNames = new Set<string>();
+    return Object.entries(this.schemaMapping).map(([key, schema]) => {
+      let ref = refOfVariant.get(schema);
+      if (ref == null) {
+        ref = this.ensureSchemaVariantRef(schema, key, unionHash, syntheticNames, ctx);
+        refOfVariant.set(schema, ref);
+      }
+      return { key, ref };
+    });
   }
 
   private getPrintingContext(ctx: SchemaContext): SchemaPrintingContext {
@@ -1850,6 +1857,7 @@ export class AnyOfDiscriminatedRuntype extends BaseRuntype {
     runtype: Runtype,
     key: string,
     unionHash: number,
+    syntheticNames: Set<string>,
     ctx: SchemaContext,
   ): string {
     const printingContext = this.getPrintingContext(ctx);
@@ -1859,11 +1867,13 @@ export class AnyOfDiscriminatedRuntype extends BaseRuntype {
       return printingContext.getRef(refTarget.name);
     }
 
-    const syntheticRefName = AnyOfDiscriminatedRuntype.getSyntheticRefName(
-      this.discriminator,
-      key,
-      unionHash,
-    );
+    const baseName = AnyOfDiscriminatedRuntype.getSyntheticRefName(this.discriminator, key, unionHash);
+    // "a-b" and "a_b" sanitize to the same name part: different variants get different names
+    let syntheticRefName = baseName;
+    for (let n = 2; syntheticNames.has(syntheticRefName); n++) {
+      syntheticRefName = `${baseName}_${n}`;
+    }
+    syntheticNames.add(syntheticRefName);
     this.ensureContextualDefinition(syntheticRefName, runtype, ctx);
     return printingContext.getRef(syntheticRefName);
   }
